@@ -120,32 +120,81 @@ func VpH_C06_deepen() {
 }
 
 // Observations of the info lines iterativeDeepen printed (engine-side: recorded by the fmt.Fprintf contract).
-func vpPrintedAny() bool          { return false }
-func vpLastPrintedLen() int       { return 0 }
-func vpLastPrintedFirst() move.Move  { return 0 }
-func vpLastPrintedSecond() move.Move { return 0 }
-func vpPrintsMonotone() bool      { return true }
+// "Line" is the most recent NON-EMPTY variation printed.
+func vpPrintedAny() bool         { return false }
+func vpLastPrintedDepth() int    { return 0 }
+func vpLineAny() bool            { return false }
+func vpLineLen() int             { return 0 }
+func vpLineFirst() move.Move     { return 0 }
+func vpLineSecond() move.Move    { return 0 }
+func vpPrintsMonotone() bool     { return true }
 
-// VpH_C07_deepen: the real iterativeDeepen with alphaBeta under contract (arbitrary score, arbitrary principal
-// variation in row 0, node counter never decreases, may raise the abort flag) and the info lines observed:
-// printed depths strictly increase and node counts never decrease; the move returned is the first move of the most
-// recent non-empty printed variation and the ponder move is its second move (none if the line has one move); if no
-// variation was printed the move comes from the fall-back.
-func VpH_C07_deepen() {
+func vpDeepenSetup() (*Search, *board.Board, *Options) {
 	s, b, opts, _ := vpAbsSetup()
 	opts.Depth = Depth(vp.Bits("depthlimit", 6))
 	vp.Assume(opts.Depth >= 1)
+	opts.SoftNodes = int(vp.I64("softnodes"))
+	opts.SoftTime = vp.I64("softtime")
 	opts.Output = vpSink{}
+	return s, b, opts
+}
+
+// VpH_C07_deepen: the real iterativeDeepen with alphaBeta under contract (arbitrary score, arbitrary principal
+// variation in row 0, node counter never decreases, may raise the abort flag), arbitrary soft limits and clock, and
+// the info lines observed: printed depths strictly increase and node counts never decrease; the move returned is
+// the first move of the most recent non-empty printed variation; a ponder move, when given, is the second move of
+// that same variation (the continuation of a reported legal line, hence legal after the move).
+func VpH_C07_deepen() {
+	s, b, opts := vpDeepenSetup()
 	_, m, ponder := s.iterativeDeepen(b, opts)
 	vp.Assert(vpPrintsMonotone(), "printed-depths-increase-and-node-counts-never-decrease")
-	if vpPrintedAny() && vpLastPrintedLen() > 0 {
-		vp.Assert(m == vpLastPrintedFirst(), "returned-move-is-first-move-of-last-printed-variation")
-		if vpLastPrintedLen() >= 2 {
-			vp.Assert(ponder == vpLastPrintedSecond(), "ponder-is-second-move-of-last-printed-variation")
-		} else {
-			vp.Assert(ponder == 0, "no-ponder-move-from-a-one-move-variation")
-		}
+	if vpLineAny() {
+		vp.Assert(m == vpLineFirst(), "returned-move-is-first-move-of-last-nonempty-printed-variation")
+		vp.Assert(ponder == 0 || (vpLineLen() >= 2 && ponder == vpLineSecond()), "ponder-move-continues-the-variation-the-returned-move-starts")
+	} else {
+		vp.Assert(ponder == 0, "no-ponder-move-without-a-variation")
 	}
+	vp.Cover("end")
+}
+
+// VpH_C08_deepen: same activation; a search that stops at a soft limit (returns without the abort flag and before
+// the depth limit) has a best move, so that a hard budget of the reached node count - which aborts inside the next
+// iteration and keeps the best move found - reproduces the result.
+func VpH_C08_deepen() {
+	s, b, opts := vpDeepenSetup()
+	_, m, _ := s.iterativeDeepen(b, opts)
+	if !s.aborted && vpPrintedAny() && vpLastPrintedDepth() < int(opts.Depth) && vpLastPrintedDepth() < MaxPlies-1 {
+		vp.Assert(m != 0, "soft-limit-stop-only-with-a-best-move")
+	}
+	vp.Cover("end")
+}
+
+// Observations of one alphaBeta activation's writes to the PV buffer (engine-side).
+func vpInsertedAny() bool            { return false }
+func vpInsertsWellFormed(ply Depth) bool { return true }
+
+// VpH_C07_alphabeta: one activation of the real alphaBeta from an ARBITRARY (possibly stale, non-empty) row of the PV
+// buffer at its ply: on return the row is empty unless this activation inserted into it, and every insert of this
+// activation goes to its own ply with the move it has just made and taken back (so that, by induction over plies,
+// every row holds the moves actually played along one line).
+func VpH_C07_alphabeta() {
+	s, b, opts, _ := vpAbsSetup()
+	alpha := Score(vp.I16("alpha"))
+	beta := Score(vp.I16("beta"))
+	vp.Assume(alpha >= -Inf-1 && beta <= Inf+1 && alpha < beta)
+	d := Depth(vp.Bits("d", 6))
+	ply := Depth(vp.Param("ply"))
+	nType := Node(vp.Bits("ntype", 2))
+	vp.Assume(nType <= AllNode)
+	stale := Depth(vp.Bits("stale_len", 6))
+	vp.Assume(int(stale) <= MaxPlies-int(ply))
+	s.pv.depth[ply] = stale
+	s.pv.moves[bufIx(ply)] = move.Move(vp.Bits("stale_first", 16))
+
+	s.alphaBeta(b, alpha, beta, d, ply, nType, opts)
+
+	vp.Assert(s.pv.depth[ply] == 0 || vpInsertedAny(), "row-empty-on-return-unless-this-activation-inserted")
+	vp.Assert(vpInsertsWellFormed(ply), "inserts-go-to-own-ply-with-the-move-just-searched")
 	vp.Cover("end")
 }
 
